@@ -23,13 +23,14 @@ def mutant_table():
 
 
 def benign_table():
-    rows = ['| probe | property | variants | alarmed at first run | rules that alarmed | what the variants did | response |', '|---|---|---|---|---|---|---|']
-    tot = al = 0
+    rows = ['| probe | property | variants | alarmed at first run | still reported | rules that alarmed | what the variants did | response |', '|---|---|---|---|---|---|---|---|']
+    tot = al = st = 0
     for m in json.load(open(os.path.join(V, 'seeded', 'benign_probes.json'))):
-        rows.append('| %s | %s | %d | %d | %s | %s | %s |' % (m['tag'], m['property'], m['variants'], m['alarmed'], m['rules'], m['what'], m['response']))
+        rows.append('| %s | %s | %d | %d | %d | %s | %s | %s |' % (m['tag'], m['property'], m['variants'], m['alarmed'], m.get('still', 0), m['rules'], m['what'], m['response']))
         tot += m['variants']
         al += m['alarmed']
-    rows.append('| **total** | | **%d** | **%d** | | | all %d silent after the generalisations |' % (tot, al, tot))
+        st += m.get('still', 0)
+    rows.append('| **total** | | **%d** | **%d** | **%d** | | | %d of %d variants are silent now |' % (tot, al, st, tot - st, tot))
     return '\n'.join(rows)
 
 
